@@ -1,4 +1,5 @@
 import Aurora.Lemmas.GcEvict
+import Aurora.Lemmas.GcWindow
 import Aurora.Model.NodeLite
 /-!
 # C12 — Garbage collection never deletes pinned or uploaded chunks
@@ -169,6 +170,18 @@ theorem C12_gc_pin_untouched_partial (s : State) (pyr : Addr → Option (List (A
     rw [hea] at this; simp [this] at hp
 
 /-! ### the window between candidate selection and the deletion callback (`Model/GcWindow.lean`) -/
+
+/-- The candidate-by-candidate model refines lstore-a's one-step `gcEvict`: if no operation runs
+    between the candidates, stepping through all of them (`gcSteps`: `gcEvictOne` for each, with the
+    pyramid `pyr` hands over) and finishing (`gcFinish`) gives exactly the state, the output and the
+    driver writes of `gcEvict` — so `C12_gcEvict_db`, `C12_gc_deletes_only_listed` and
+    `C12_gc_pin_untouched_partial` hold for every run of the window model in which nothing races. -/
+theorem C12_gc_window_refines_gcEvict (s : State) (pyr : Addr → Option (List (Addr × Nat)))
+    (hrun : s.gcRunning = true) :
+    (gcFinish (gcSteps pyr (GcRun.start s) s.cands)).st = (gcEvict s pyr).st ∧
+    (gcFinish (gcSteps pyr (GcRun.start s) s.cands)).out = (gcEvict s pyr).out ∧
+    (gcFinish (gcSteps pyr (GcRun.start s) s.cands)).writes = (gcEvict s pyr).writes :=
+  gcSteps_finish_eq_gcEvict s pyr hrun
 
 /-- every `Set` executed while a run is in progress logs its addresses as dirty (and the run stays
     in progress) -/
